@@ -161,6 +161,7 @@ type Env struct {
 
 	startOpts OpenOpts
 	bkDir   string // reusable backup directory ("" = none)
+	bkOld   []oldBackup
 	bkSeq   int
 	flags   map[string]bool
 	closed  bool
@@ -989,6 +990,41 @@ func (e *Env) checkStat(tag string, st klevdb.Stats, dir, what string) {
 	}
 }
 
+// oldBackup: a backup taken earlier and the log content at the time of that call. A backup must stay
+// what it was when the source moves on (it is a copy, not a view).
+type oldBackup struct {
+	dir string
+	m   *Model
+}
+
+// recheckBackups re-opens (read-only) the backups taken earlier in this case and compares them with the
+// content the source had at the time of their Backup call.
+func (e *Env) recheckBackups(except string) {
+	if !e.own("backup") {
+		return
+	}
+	for _, ob := range e.bkOld {
+		if ob.dir == except {
+			continue
+		}
+		o := e.Opts
+		o.Check, o.Recover, o.Eager = false, false, false
+		opts := o.Options(e.Cfg)
+		opts.Readonly = true
+		b, err := klevdb.Open(ob.dir, opts)
+		if err != nil {
+			e.failf("backup", "re-opening an earlier backup failed: %v", err)
+		}
+		ve := *e
+		ve.M = ob.m
+		func() {
+			defer b.Close()
+			ve.observeWith(b, ob.dir, obsTags{next: "backup", scan: "backup", get: "backup", key: "backup", time: "backup", stat: "backup"}, "earlier backup after the source moved on")
+		}()
+		e.St.Inc("earlier_backups_rechecked")
+	}
+}
+
 func (e *Env) applyBackup(op Op) {
 	// destination: a fresh directory, or the previous one if only publishes happened since
 	dst := e.bkDir
@@ -1068,6 +1104,19 @@ func (e *Env) applyBackup(op Op) {
 	}
 	// opening the backup read-write may have touched it (index rebuild is derived data only); it stays reusable
 	e.bkDir = dst
+	if e.own("backup") {
+		e.recheckBackups(dst)
+		kept := e.bkOld[:0]
+		for _, ob := range e.bkOld {
+			if ob.dir != dst {
+				kept = append(kept, ob)
+			}
+		}
+		e.bkOld = append(kept, oldBackup{dst, e.M.Clone()})
+		if len(e.bkOld) > 3 {
+			e.bkOld = e.bkOld[len(e.bkOld)-3:]
+		}
+	}
 }
 
 func mtimes(dir string) map[string]time.Time {
